@@ -171,7 +171,7 @@ class Sub(object):
     def __init__(self, name, oracle, strategy=None, enumerate=None,
                  budget=None, shards=None, time_cap=None, setup=None,
                  nt_rule="", what="", stateful=None, teardown=None,
-                 shrink=True):
+                 shrink=True, external=None):
         self.name = name
         self.oracle = oracle
         self.strategy = strategy
@@ -184,6 +184,9 @@ class Sub(object):
         self.nt_rule = nt_rule
         self.what = what
         self.shrink = shrink
+        # external(sub, tier, n, seed, shard, nshards, known, rec, deadline)
+        # -> (found dicts, complete): a driver of its own (atheris campaign)
+        self.external = external
 
 
 # ---------------------------------------------------------------------------
